@@ -88,8 +88,10 @@ int main()
             ob::PlannerTerminationCondition c([] { return pred[0]; }, p);
             msleep(3 * p + 0.05); bool a = c.eval();           // predicate never true -> false
             pred[0] = true; msleep(3 * p + 0.05); bool b = c.eval();   // true for >= 3 periods -> true
+            pred[0] = false; msleep(3 * p + 0.05); bool b2 = c.eval(); // false again for >= 3 periods -> false
+            pred[0] = true; msleep(3 * p + 0.05); bool b3 = c.eval();  // and true again
             ob::PlannerTerminationCondition c2([] { return false; }, p); c2.terminate(); bool d = c2.eval();
-            std::printf("periodic %d %d %d\n", a, b, d);
+            std::printf("periodic %d %d %d %d %d\n", a, b, b2, b3, d);
         }
         else if (op == "EXACT")
         {
